@@ -454,6 +454,44 @@ func checkC03(w *World, r *Recorder) propInfo {
 	remapRule(r, "C19-Y4", "C03-S4")
 	auditCoseSign(w, r, "C03-audit")
 	auditCoseMarshal(w, r, "C03-audit")
+	// S6: verification with the matching key succeeds only if Verify rejects
+	// nothing that go-cose has not rejected: every failing path of Verify is
+	// the missing-envelope guard or follows a non-nil error of one of the three
+	// library calls (algorithm of the protected header, NewVerifier, Verify)
+	if fn, s := evidenceMethod(w, r, "C03-S", "Verify"); fn != nil {
+		recv := fn.Params[0].Name()
+		n := 0
+		for _, p := range s.Paths {
+			if p.Ret == nil {
+				continue
+			}
+			if _, nl := errOf(p, 0); nl != 1 {
+				continue
+			}
+			n++
+			pkey := "Verify#fails:" + c08PathKey(p)
+			ok := false
+			if b, has := p.St.atoms["nil("+recv+".message)"]; has && b {
+				ok = true
+			}
+			for _, callee := range []string{cAlg, cNewVerifier, cVerify} {
+				for _, ev := range callsTo(p, callee) {
+					res := ev.Result
+					if res.Kind == KTuple && len(res.Elems) > 0 {
+						res = res.Elems[len(res.Elems)-1]
+					}
+					if p.St.NilOf(res) == 1 {
+						ok = true
+					}
+				}
+			}
+			r.Check(ok, "C03-S6", pkey, w.InstrPos(p.Ret), "failure follows a go-cose error (or the missing-envelope guard)",
+				"Verify returns an error although none of go-cose's calls has failed on this path: a correctly signed token can be refused (verification with the matching key must succeed)")
+		}
+		if n == 0 {
+			r.Refute("C03-S6", "Verify#fails", w.FnPos(fn), "Verify has no failing path at all")
+		}
+	}
 	// S5: the payload kept in the signing Evidence and the token returned are fresh memory (a reused buffer would let a later encode change the signed payload)
 	for _, n := range []string{"EncodeClaimsToCBOR", "ValidateAndEncodeClaimsToCBOR"} {
 		if fn := w.Root.Func(n); fn != nil {
@@ -622,6 +660,10 @@ func checkC19(w *World, r *Recorder) propInfo {
 			ruleResultFresh(w, r, "C19-Y6", fn, "Evidence."+name, 0)
 		}
 	}
+	// Y7: the payload a signature covers is a faithful encoding of the attached
+	// claims: the custom marshallers change nothing in the encoded copy beyond
+	// nil-ing an empty component container (C09-I1)
+	importRules(w, r, checkC09, "C19-Y7", func(o *Oblig) bool { return o.Rule == "C09-I1" })
 	r.Floor("C19-Y5", 1)
 	return info
 }
